@@ -628,10 +628,6 @@ def exc_name(exc: BaseException) -> str:
     return type(exc).__name__
 
 
-def spec_has_flex(spec) -> bool:
-    return any(ev['flex'] for ev in iter_spec_events(spec))
-
-
 def spec_flags(specs: list, form: str) -> dict:
     """Coarse, stable facts about the written value(s) for known-finding predicates; only the ones the given
     encoding's known defects depend on, to keep failure groups few."""
